@@ -1393,12 +1393,16 @@ class TrigInfo:
             func_args,
         )
 
+        kill_me = bool(self.task_unique_kwargs and self.task_unique_kwargs.get("kill_me"))
+
         async def do_func_call(func, ast_ctx, task_unique, task_unique_func, hass_context, **kwargs):
             # Store HASS Context for this Task
             Function.store_hass_context(hass_context)
 
             if task_unique and task_unique_func:
-                await task_unique_func(task_unique)
+                # the check above and this claim are not atomic (several triggers can fire at the same
+                # instant): the claim applies the kill_me rule itself, so the later run is the one that ends
+                await task_unique_func(task_unique, kill_me=kill_me)
             try:
                 await ast_ctx.call_func(func, None, **kwargs)
             except Exception as e:
